@@ -110,6 +110,26 @@ func mutantsFor(prop string) []Mutant {
 		{"C19", "Run sorts the shared branch table", []Edit{{sr, "func matchBranch(i bytecode.Branch, current_state *SearchEngineState) *SearchEngineState {\n", "func matchBranch(i bytecode.Branch, current_state *SearchEngineState) *SearchEngineState {\n\tif len(i.Branches) > 1 && i.Branches[0] > i.Branches[1] {\n\t\ti.Branches[0], i.Branches[1] = i.Branches[1], i.Branches[0]\n\t}\n"}}},
 		{"C20", "directories listed as files", []Edit{{"libvore/files/path.go", "\t\t\tif !e.IsDir() && pathMatches(e.Name(), path.entries[0].value) {", "\t\t\tif pathMatches(e.Name(), path.entries[0].value) {"}}},
 		{"C20", "recursion without shrinking the pattern", []Edit{{"libvore/files/path.go", "results = append(results, path.shrink().GetFileList(currentDirectory+\"/\"+e.Name())...)", "results = append(results, path.GetFileList(currentDirectory+\"/\"+e.Name())...)"}}},
+		// second generation: one mutant per rule added after the second round of seeded changes
+		{"C01", "BACKTRACK drops a popped checkpoint", []Edit{{se, "\t\tnext_state := es.backtrack.Pop()\n\t\tes.Set(next_state)\n", "\t\tnext_state := es.backtrack.Pop()\n\t\tif next_state.programCounter < 0 {\n\t\t\treturn\n\t\t}\n\t\tes.Set(next_state)\n"}}},
+		{"C01", "Stack.Copy returns a view of the same backing array", []Edit{{"libvore/ds/stack.go", "\tresult := NewStack[T]()\n\n\tfor _, value := range s.store {\n\t\tresult.Push(value)\n\t}\n\n\treturn result\n", "\treturn &Stack[T]{store: s.store[:len(s.store)]}\n"}}},
+		{"C02", "Stack.Copy returns a view of the same backing array", []Edit{{"libvore/ds/stack.go", "\tresult := NewStack[T]()\n\n\tfor _, value := range s.store {\n\t\tresult.Push(value)\n\t}\n\n\treturn result\n", "\treturn &Stack[T]{store: s.store[:len(s.store)]}\n"}}},
+		{"C09", "Stack.Copy returns a view of the same backing array", []Edit{{"libvore/ds/stack.go", "\tresult := NewStack[T]()\n\n\tfor _, value := range s.store {\n\t\tresult.Push(value)\n\t}\n\n\treturn result\n", "\treturn &Stack[T]{store: s.store[:len(s.store)]}\n"}}},
+		{"C04", "the VM state is told where the window starts", []Edit{{sr, "\t\tcurrentState := CreateState(filename, reader, fileOffset, lineNumber, columnNumber)\n", "\t\tcurrentState := CreateState(filename, reader, fileOffset, lineNumber, columnNumber)\n\t\tcurrentState.startColumnNum = columnNumber + skip\n"}}},
+		{"C06", "RunFiles keeps one reader per file across commands", []Edit{{"libvore/engine/engine.go", "\t\t\t\tfoundMatches := search(&command, actualFilename, reader, actualMode)\n", "\t\t\t\tif cached, ok := readerCache[actualFilename]; ok {\n\t\t\t\t\treader = cached\n\t\t\t\t} else {\n\t\t\t\t\treaderCache[actualFilename] = reader\n\t\t\t\t}\n\t\t\t\tfoundMatches := search(&command, actualFilename, reader, actualMode)\n"}, {"libvore/engine/engine.go", "func RunFiles(", "var readerCache = map[string]*files.Reader{}\n\nfunc RunFiles("}}},
+		{"C07", "RunFiles keeps one reader per file across commands", []Edit{{"libvore/engine/engine.go", "\t\t\t\tfoundMatches := search(&command, actualFilename, reader, actualMode)\n", "\t\t\t\tif cached, ok := readerCache[actualFilename]; ok {\n\t\t\t\t\treader = cached\n\t\t\t\t} else {\n\t\t\t\t\treaderCache[actualFilename] = reader\n\t\t\t\t}\n\t\t\t\tfoundMatches := search(&command, actualFilename, reader, actualMode)\n"}, {"libvore/engine/engine.go", "func RunFiles(", "var readerCache = map[string]*files.Reader{}\n\nfunc RunFiles("}}},
+		{"C08", "Compile can answer (nil, nil)", []Edit{{"libvore/vore.go", "func Compile(command string) (*Vore, error) {\n\treturn compile(strings.NewReader(command))\n}", "var lastProgram *Vore\n\nfunc Compile(command string) (*Vore, error) {\n\tif command == \"\" {\n\t\treturn lastProgram, nil\n\t}\n\treturn compile(strings.NewReader(command))\n}"}}},
+		{"C09", "replacement read with GetValue", []Edit{{sr, "writer.WriteAt(currentWriterOffset, replacedMatches[i].Replacement.GetValueOrDefault(\"\"))", "writer.WriteAt(currentWriterOffset, replacedMatches[i].Replacement.GetValue())"}}},
+		{"C10", "iteration start re-recorded for named loops only", []Edit{{se, "\tes.loopStack.Peek().loopMatchIndexStart = len(es.currentMatch)\n\tes.loopStack.Peek().variables.Add(", "\tif es.loopStack.Peek().name != \"\" {\n\t\tes.loopStack.Peek().loopMatchIndexStart = len(es.currentMatch)\n\t}\n\tes.loopStack.Peek().variables.Add("}}},
+		{"C10", "whole-word loop ignores the end of input", []Edit{{se, "\t\tes.CONSUME(1)\n\t\tif es.currentFileOffset == es.reader.Size() {\n\t\t\tbreak\n\t\t}\n\n\t\tcurrent := es.READ(1)", "\t\tes.CONSUME(1)\n\n\t\tcurrent := es.READ(1)"}}},
+		{"C12", "checkIf does not look at the verdict of the then-branch", []Edit{{sem, "\tfor _, stmt := range s.TrueBody {\n\t\tvalueInfo = checkStatement(&stmt, valueInfo)\n\t\tif valueInfo.currentType == PTERROR {\n\t\t\treturn valueInfo\n\t\t}\n\t}\n", "\tfor _, stmt := range s.TrueBody {\n\t\tvalueInfo = checkStatement(&stmt, valueInfo)\n\t}\n"}}},
+		{"C15", "the lexer remembers the previous token, trivia included", []Edit{{lx, "\tposition    *ds.Stack[PositionInfo]\n}", "\tposition    *ds.Stack[PositionInfo]\n\tprevious    TokenType\n}"}, {lx, "\t} else if token.TokenType == ERROR {\n\t\treturn nil, NewLexError(token, \"Unknown token\")\n\t}\n", "\t} else if token.TokenType == ERROR {\n\t\treturn nil, NewLexError(token, \"Unknown token\")\n\t}\n\tif s.previous == NUMBER && token.TokenType == NUMBER {\n\t\ttoken.TokenType = IDENTIFIER\n\t}\n\ts.previous = token.TokenType\n"}}},
+		{"C16", "an incomplete \\x keeps the escape state", []Edit{{lx, "\t\t\t\t} else {\n\t\t\t\t\tbuf.WriteRune('x')\n\t\t\t\t}\n\t\t\t} else {\n\t\t\t\tbuf.WriteRune(getEscapedRune(ch))\n\t\t\t}\n\t\t\tcurrent_state = SSTRING_DOUBLE\n", "\t\t\t\t} else {\n\t\t\t\t\tbuf.WriteRune('x')\n\t\t\t\t\tcontinue\n\t\t\t\t}\n\t\t\t} else {\n\t\t\t\tbuf.WriteRune(getEscapedRune(ch))\n\t\t\t}\n\t\t\tcurrent_state = SSTRING_DOUBLE\n"}}},
+		{"C17", "encoded JSON rewritten by a string replacement", []Edit{{"libvore/engine/matches.go", "func (m Matches) Json() string {\n\tdata, err := json.Marshal([]Match(m))\n\tif err != nil {\n\t\tpanic(err)\n\t}\n\treturn string(data)\n}", "func (m Matches) Json() string {\n\tdata, err := json.Marshal([]Match(m))\n\tif err != nil {\n\t\tpanic(err)\n\t}\n\treturn strings.ReplaceAll(string(data), \"\\\\u0026\", \"&\")\n}"}}},
+		{"C18", "JSON output file no longer truncated", []Edit{{"main.go", "\t\t\tf := OpenFile(json_file)\n\t\t\tTruncate(f)\n", "\t\t\tf := OpenFile(json_file)\n"}}},
+		{"C18", "leading ./ removed with a cutset", []Edit{{"libvore/files/path.go", "\t\tpath = path[1:]\n\t}\n\tsplitPath", "\t\tpath = path[1:]\n\t} else {\n\t\tpath = strings.TrimLeft(path, \"./\")\n\t}\n\tsplitPath"}}},
+		{"C20", "leading ./ removed with a cutset", []Edit{{"libvore/files/path.go", "\t\tpath = path[1:]\n\t}\n\tsplitPath", "\t\tpath = path[1:]\n\t} else {\n\t\tpath = strings.TrimLeft(path, \"./\")\n\t}\n\tsplitPath"}}},
+		{"C20", "single-star fast path without a length test", []Edit{{"libvore/files/path.go", "\tmatchParts := algo.Window(algo.SplitKeep(matches, \"*\"), 2)\n", "\tif strings.Count(matches, \"*\") == 1 {\n\t\tparts := strings.SplitN(matches, \"*\", 2)\n\t\treturn strings.HasPrefix(target, parts[0]) && strings.HasSuffix(target, parts[1])\n\t}\n\tmatchParts := algo.Window(algo.SplitKeep(matches, \"*\"), 2)\n"}}},
 	}
 	var out []Mutant
 	for _, m := range all {
